@@ -501,4 +501,527 @@ mutual
             · exact sa.2 l hl
 end
 
+/-! ## Non-emptiness on well-formed trees -/
+
+theorem wf_mk (op : Op) (flags : Nat) (rune : List Nat) (sub : List Regex) :
+    (Regex.mk op flags rune sub).wf =
+      ((match op with
+        | .charClass => classWf rune && sub.isEmpty
+        | .capture | .star | .plus | .quest | .repeat_ => sub.length == 1
+        | .concat | .alternate => decide (sub.length ≥ 1)
+        | _ => sub.isEmpty) && wfAll sub) := by
+  unfold Regex.wf; rfl
+
+theorem wfAll_cons (r : Regex) (rest : List Regex) : wfAll (r :: rest) = (r.wf && wfAll rest) := by
+  rw [wfAll]
+
+theorem wfAll_append (xs ys : List Regex) : wfAll (xs ++ ys) = (wfAll xs && wfAll ys) := by
+  induction xs with
+  | nil => simp [wfAll]
+  | cons x xs ih => simp only [List.cons_append, wfAll_cons, ih, Bool.and_assoc]
+
+mutual
+  theorem regex_ne : ∀ (re : Regex) (L : List Str), matchRegex re = some L → re.wf = true → L ≠ []
+    | .mk op flags rune sub, L, h, hw => by
+      rw [wf_mk, Bool.and_eq_true] at hw
+      cases op with
+      | literal =>
+        rw [matchRegex] at h
+        split at h
+        · simp at h
+        · split at h
+          · simp only [Option.some.injEq] at h; subst h; simp
+          · simp at h
+      | charClass =>
+        rw [matchRegex] at h
+        split at h
+        · simp at h
+        · split at h
+          · simp at h
+          · rename_i hs
+            simp only [Bool.or_eq_true, decide_eq_true_eq, beq_iff_eq, not_or] at hs
+            have := (classStrs_spec h).1
+            intro hL; rw [hL] at this; simp at this; omega
+      | capture =>
+        rw [matchRegex] at h
+        split at h
+        · simp at h
+        · exact first_ne sub L h hw.2
+      | concat =>
+        rw [matchRegex] at h
+        split at h
+        · simp at h
+        · exact concat_ne sub L h hw.2
+      | alternate =>
+        rw [matchRegex] at h
+        split at h
+        · simp at h
+        · cases ha : matchAlt sub with
+          | none => rw [ha] at h; simp at h
+          | some names =>
+            rw [ha] at h
+            simp only at h
+            split at h
+            · simp at h
+            · simp only [Option.some.injEq] at h; subst h
+              have h1 := hw.1
+              simp only [decide_eq_true_eq] at h1
+              exact alt_ne sub names ha hw.2 (by intro e; rw [e] at h1; simp at h1)
+      | _ => simp [matchRegex] at h
+  theorem first_ne : ∀ (sub : List Regex) (L : List Str), matchFirst sub = some L → wfAll sub = true → L ≠ []
+    | [], L, h, _ => by simp [matchFirst] at h
+    | r :: rest, L, h, hw => by
+      rw [matchFirst] at h
+      rw [wfAll_cons, Bool.and_eq_true] at hw
+      exact regex_ne r L h hw.1
+  theorem concat_ne : ∀ (sub : List Regex) (L : List Str), matchConcat sub = some L → wfAll sub = true → L ≠ []
+    | [], L, h, _ => by simp [matchConcat] at h
+    | r :: rest, L, h, hw => by
+      rw [matchConcat] at h
+      rw [wfAll_cons, Bool.and_eq_true] at hw
+      cases hr : matchRegex r with
+      | none => rw [hr] at h; simp at h
+      | some names =>
+        rw [hr] at h
+        exact loop_ne rest names L h hw.2 (regex_ne r names hr hw.1)
+  theorem loop_ne : ∀ (rest : List Regex) (names L : List Str), concatLoop names rest = some L →
+      wfAll rest = true → names ≠ [] → L ≠ []
+    | [], names, L, h, _, hn => by
+      rw [concatLoop] at h
+      simp only [Option.some.injEq] at h; subst h; exact hn
+    | r :: rest, names, L, h, hw, hn => by
+      rw [concatLoop] at h
+      rw [wfAll_cons, Bool.and_eq_true] at hw
+      cases hr : matchRegex r with
+      | none => rw [hr] at h; simp at h
+      | some vals =>
+        rw [hr] at h
+        simp only at h
+        cases hc : concatStep names vals with
+        | none => rw [hc] at h; simp at h
+        | some names' =>
+          rw [hc] at h
+          exact loop_ne rest names' L h hw.2 (concatStep_ne_nil hc hn (regex_ne r vals hr hw.1))
+  theorem alt_ne : ∀ (sub : List Regex) (L : List Str), matchAlt sub = some L → wfAll sub = true → sub ≠ [] → L ≠ []
+    | [], _, _, _, hs => absurd rfl hs
+    | r :: rest, L, h, hw, _ => by
+      rw [matchAlt] at h
+      rw [wfAll_cons, Bool.and_eq_true] at hw
+      cases hr : matchRegex r with
+      | none => rw [hr] at h; simp at h
+      | some vals =>
+        rw [hr] at h
+        cases ha : matchAlt rest with
+        | none => rw [ha] at h; simp at h
+        | some more =>
+          rw [ha] at h
+          simp only [Option.map_some, Option.some.injEq] at h; subst h
+          have := regex_ne r vals hr hw.1
+          intro e
+          exact this (List.append_eq_nil_iff.mp e).1
+end
+
+/-! ## The anchored top level -/
+
+theorem matchConcatB_append {xs ys : List Regex} {pre mid post : Str} :
+    matchConcatB (xs ++ ys) pre mid post = true ↔
+      ∃ a b, mid = a ++ b ∧ matchConcatB xs pre a (b ++ post) = true ∧ matchConcatB ys (pre ++ a) b post = true := by
+  induction xs generalizing pre mid with
+  | nil =>
+    simp only [List.nil_append, matchConcatB_nil, List.isEmpty_iff]
+    constructor
+    · intro h; exact ⟨[], mid, rfl, rfl, by simpa using h⟩
+    · rintro ⟨a, b, rfl, rfl, h⟩; simpa using h
+  | cons x xs ih =>
+    rw [List.cons_append, matchConcatB_cons_iff]
+    constructor
+    · rintro ⟨a, b, rfl, h1, h2⟩
+      obtain ⟨c, d, rfl, h3, h4⟩ := ih.mp h2
+      refine ⟨a ++ c, d, by simp, matchConcatB_cons_iff.mpr ⟨a, c, rfl, ?_, h3⟩, ?_⟩
+      · rw [← List.append_assoc]; exact h1
+      · rw [← List.append_assoc]; exact h4
+    · rintro ⟨ac, d, rfl, h1, h2⟩
+      obtain ⟨a, c, rfl, h3, h4⟩ := matchConcatB_cons_iff.mp h1
+      refine ⟨a, c ++ d, by simp, ?_, ih.mpr ⟨c, d, rfl, h4, ?_⟩⟩
+      · rw [List.append_assoc]; exact h3
+      · rw [List.append_assoc]; exact h2
+
+theorem matchB_beginText {b : Regex} (hb : b.op = .beginText) (pre mid post : Str) :
+    matchB b pre mid post = true ↔ mid = [] ∧ pre = [] := by
+  cases b with
+  | mk op f r s =>
+    simp only [Regex.op] at hb; subst hb
+    rw [matchB_mk]; simp [List.isEmpty_iff]
+
+theorem matchB_endText {e : Regex} (he : e.op = .endText) (pre mid post : Str) :
+    matchB e pre mid post = true ↔ mid = [] ∧ post = [] := by
+  cases e with
+  | mk op f r s =>
+    simp only [Regex.op] at he; subst he
+    rw [matchB_mk]; simp [List.isEmpty_iff]
+
+/-- Unanchored search for `^ inner $` (text anchors) is a full match of `inner`. -/
+theorem search_anchored {flags : Nat} {rune : List Nat} {b e : Regex} {inner : List Regex}
+    (hb : b.op = .beginText) (he : e.op = .endText) (s : Str) :
+    Search (.mk .concat flags rune (b :: (inner ++ [e]))) s ↔ matchConcatB inner [] s [] = true := by
+  constructor
+  · rintro ⟨pre, mid, post, hs, hm⟩
+    rw [matchB_mk] at hm
+    obtain ⟨a, b', rfl, h1, h2⟩ := matchConcatB_cons_iff.mp hm
+    obtain ⟨rfl, rfl⟩ := (matchB_beginText hb _ _ _).mp h1
+    obtain ⟨x, y, rfl, h3, h4⟩ := matchConcatB_append.mp h2
+    obtain ⟨y1, y2, rfl, h5, h6⟩ := matchConcatB_cons_iff.mp h4
+    obtain ⟨rfl, h7⟩ := (matchB_endText he _ _ _).mp h5
+    rw [matchConcatB_nil, List.isEmpty_iff] at h6
+    subst h6
+    simp only [List.append_nil, List.nil_append] at h7 hs h3
+    subst h7
+    simp only [List.append_nil] at hs h3
+    subst hs
+    exact h3
+  · intro h
+    refine ⟨[], s, [], by simp, ?_⟩
+    rw [matchB_mk]
+    refine matchConcatB_cons_iff.mpr ⟨[], s, rfl, (matchB_beginText hb _ _ _).mpr ⟨rfl, rfl⟩, ?_⟩
+    refine matchConcatB_append.mpr ⟨s, [], by simp, by simpa using h, ?_⟩
+    exact matchConcatB_cons_iff.mpr ⟨[], [], rfl, (matchB_endText he _ _ _).mpr ⟨rfl, rfl⟩, by simp [matchConcatB_nil]⟩
+
+/-- Shape of a list of length ≥ 2: head, middle, last. -/
+theorem list_shape {α : Type} (l : List α) (h : ¬ l.length < 2) :
+    ∃ b e, l.head? = some b ∧ l.getLast? = some e ∧ l = b :: ((l.drop 1).dropLast ++ [e]) := by
+  match l with
+  | [] => simp at h
+  | [_] => simp at h
+  | b :: x :: rest =>
+    have hne : x :: rest ≠ [] := by simp
+    refine ⟨b, (x :: rest).getLast hne, rfl, ?_, ?_⟩
+    · rw [List.getLast?_cons_cons, List.getLast?_eq_some_getLast hne]
+    · simp only [List.drop_succ_cons, List.drop_zero, List.cons.injEq, true_and]
+      exact (List.dropLast_concat_getLast hne).symm
+
+theorem matchExactTree_mk (op : Op) (flags : Nat) (rune : List Nat) (sub : List Regex) :
+    matchExactTree (.mk op flags rune sub) =
+      if op ≠ .concat then none
+      else if sub.length < 2 then none
+      else if (sub.head?.map Regex.op) ≠ some .beginText then none
+      else if (sub.getLast?.map Regex.op) ≠ some .endText then none
+      else if ((sub.drop 1).dropLast).isEmpty then some []
+      else matchRegex (.mk op flags rune ((sub.drop 1).dropLast)) := by
+  unfold matchExactTree; rfl
+
+/-- What `matchExactTree` has checked when it answers. -/
+theorem matchExactTree_some {re : Regex} {L : List Str} (h : matchExactTree re = some L) :
+    ∃ flags rune b e inner, re = .mk .concat flags rune (b :: (inner ++ [e])) ∧
+      b.op = .beginText ∧ e.op = .endText ∧
+      ((inner = [] ∧ L = []) ∨ (inner ≠ [] ∧ matchRegex (.mk .concat flags rune inner) = some L)) := by
+  cases re with
+  | mk op flags rune sub =>
+    rw [matchExactTree_mk] at h
+    by_cases hop : op ≠ .concat
+    · rw [if_pos hop] at h; simp at h
+    · rw [if_neg hop] at h
+      simp only [ne_eq, Decidable.not_not] at hop
+      subst hop
+      by_cases hlen : sub.length < 2
+      · rw [if_pos hlen] at h; simp at h
+      · rw [if_neg hlen] at h
+        obtain ⟨b, e, hb, he, hshape⟩ := list_shape sub hlen
+        by_cases h1 : (sub.head?.map Regex.op) ≠ some .beginText
+        · rw [if_pos h1] at h; simp at h
+        · rw [if_neg h1] at h
+          by_cases h2 : (sub.getLast?.map Regex.op) ≠ some .endText
+          · rw [if_pos h2] at h; simp at h
+          · rw [if_neg h2] at h
+            rw [hb] at h1; rw [he] at h2
+            simp only [Option.map_some, ne_eq, Decidable.not_not, Option.some.injEq] at h1 h2
+            refine ⟨flags, rune, b, e, (sub.drop 1).dropLast, by rw [← hshape], h1, h2, ?_⟩
+            by_cases hem : ((sub.drop 1).dropLast).isEmpty = true
+            · rw [if_pos hem] at h
+              left
+              exact ⟨List.isEmpty_iff.mp hem, by simpa using h.symm⟩
+            · rw [if_neg hem] at h
+              right
+              exact ⟨fun e => hem (by rw [e]; rfl), h⟩
+
+/-! ## Search, the literal list the rewrite substitutes -/
+
+theorem searchB_iff (re : Regex) (s : Str) : searchB re s = true ↔ Search re s := by
+  unfold searchB Search
+  rw [splits_any]
+  constructor
+  · rintro ⟨pre, rest, rfl, h⟩
+    obtain ⟨mid, post, rfl, hm⟩ := splits_any.mp h
+    exact ⟨pre, mid, post, rfl, hm⟩
+  · rintro ⟨pre, mid, post, rfl, hm⟩
+    exact ⟨pre, mid ++ post, rfl, splits_any.mpr ⟨mid, post, rfl, hm⟩⟩
+
+/-- The strings the rewrite tests for when `matchExactRegex` answered `vals`: an empty answer
+(the `/^$/` case) becomes the empty-string literal. -/
+def rewriteLits : List Str → List Str
+  | [] => [[]]
+  | l => l
+
+theorem rewriteLits_of_ne {L : List Str} (h : L ≠ []) : rewriteLits L = L := by
+  cases L with
+  | nil => exact absurd rfl h
+  | cons _ _ => rfl
+
+theorem encStrs_rewriteLits {L : List Str} (h : EncStrs L) : EncStrs (rewriteLits L) := by
+  cases L with
+  | nil => intro l hl c hc; simp only [rewriteLits, List.mem_singleton] at hl; subst hl; simp at hc
+  | cons _ _ => exact h
+
+theorem wf_inner {flags : Nat} {rune : List Nat} {b e : Regex} {inner : List Regex}
+    (hw : (Regex.mk .concat flags rune (b :: (inner ++ [e]))).wf = true) (hne : inner ≠ []) :
+    (Regex.mk .concat flags rune inner).wf = true := by
+  rw [wf_mk, Bool.and_eq_true, wfAll_cons, wfAll_append, Bool.and_eq_true, Bool.and_eq_true] at hw
+  rw [wf_mk, Bool.and_eq_true]
+  refine ⟨?_, hw.2.2.1⟩
+  cases inner with
+  | nil => exact absurd rfl hne
+  | cons _ _ => simp
+
+/-- Everything `matchExactTree` guarantees on a well-formed tree. -/
+theorem matchExactTree_spec {re : Regex} {L : List Str} (h : matchExactTree re = some L)
+    (hw : re.wf = true) :
+    (∀ s, Search re s ↔ s ∈ rewriteLits L) ∧ (rewriteLits L).length ≤ maxLiterals ∧ EncStrs (rewriteLits L) := by
+  obtain ⟨flags, rune, b, e, inner, rfl, hb, he, hcase⟩ := matchExactTree_some h
+  rcases hcase with ⟨rfl, rfl⟩ | ⟨hne, hm⟩
+  · refine ⟨?_, by simp [rewriteLits, maxLiterals], encStrs_rewriteLits (fun l hl => absurd hl List.not_mem_nil)⟩
+    intro s
+    rw [search_anchored hb he, matchConcatB_nil]
+    simp [rewriteLits, List.isEmpty_iff]
+  · have sp := regex_spec _ L hm
+    have hL := regex_ne _ L hm (wf_inner hw hne)
+    rw [rewriteLits_of_ne hL]
+    refine ⟨?_, sp.len, sp.enc⟩
+    intro s
+    rw [search_anchored hb he, ← sp.lang [] s [], matchB_mk]
+
+/-! ## Go strings: stray bytes -/
+
+theorem decodeStr_ofStr (l : Str) : decodeStr (ofStr l) = l := by
+  induction l with
+  | nil => rfl
+  | cons c cs ih => simp only [ofStr, decodeStr, List.map_cons, GoUnit.decode, List.cons.injEq, true_and] at *; exact ih
+
+/-- A string that decodes to a rune sequence without U+FFFD is that sequence, byte for byte. -/
+theorem eq_ofStr_of_decode {x : GoStr} {l : Str} (henc : ∀ c, c ∈ l → isEncodableRune c.toNat = true)
+    (h : decodeStr x = l) : x = ofStr l := by
+  induction x generalizing l with
+  | nil => simp only [decodeStr, List.map_nil] at h; subst h; rfl
+  | cons u us ih =>
+    cases l with
+    | nil => simp [decodeStr] at h
+    | cons c cs =>
+      simp only [decodeStr, List.map_cons, List.cons.injEq] at h
+      have hc := henc c List.mem_cons_self
+      have := ih (l := cs) (fun c' hc' => henc c' (List.mem_cons_of_mem _ hc')) h.2
+      rw [this]
+      cases u with
+      | ch c' => simp only [GoUnit.decode] at h; rw [h.1]; rfl
+      | bad b =>
+        exfalso
+        simp only [GoUnit.decode] at h
+        rw [← h.1] at hc
+        exact absurd hc (by decide)
+
+theorem decode_mem_iff {x : GoStr} {L : List Str} (henc : EncStrs L) :
+    decodeStr x ∈ L ↔ x ∈ L.map ofStr := by
+  rw [List.mem_map]
+  constructor
+  · intro h; exact ⟨decodeStr x, h, (eq_ofStr_of_decode (henc _ h) rfl).symm⟩
+  · rintro ⟨l, hl, rfl⟩; rw [decodeStr_ofStr]; exact hl
+
+/-! ## Evaluation of the rewritten tests -/
+
+/-- `before ≈ after`: equal, or `nil` became `false` (a regex test on a non-string gives nil,
+the equality test that replaces it gives false). -/
+def Rel (v w : Val) : Prop := v = w ∨ (v = .nil ∧ w = .bool false)
+
+theorem Rel.refl (v : Val) : Rel v v := Or.inl rfl
+
+theorem Rel.truthy {v w : Val} (h : Rel v w) : truthy v = truthy w := by
+  rcases h with rfl | ⟨rfl, rfl⟩ <;> rfl
+
+/-- `AND` / `OR` respect `≈` in both operands. -/
+theorem evalLogic_rel (isOr : Bool) {a a' b b' : Val} (ha : Rel a a') (hb : Rel b b') :
+    Rel (evalLogic isOr a b) (evalLogic isOr a' b') := by
+  rcases ha with rfl | ⟨rfl, rfl⟩ <;> rcases hb with rfl | ⟨rfl, rfl⟩
+  · exact Rel.refl _
+  · cases a <;> cases isOr <;> simp [evalLogic, Rel]
+  · cases b <;> cases isOr <;> simp [evalLogic, Rel]
+  · cases isOr <;> simp [evalLogic, Rel]
+
+/-- The boolean an equality test against a literal yields. -/
+def strCmpB (neg : Bool) (v : Val) (lit : Str) : Bool :=
+  match v with
+  | .str x => if neg then x ≠ ofStr lit else x = ofStr lit
+  | _ => false
+
+theorem evalStrCmp_eq (neg : Bool) (v : Val) (lit : Str) : evalStrCmp neg v lit = .bool (strCmpB neg v lit) := by
+  cases v <;> simp [evalStrCmp, strCmpB]
+
+section
+variable (matchStr : Str → GoStr → Bool) (atom : Expr → Val)
+
+theorem eval_and (l r : Expr) :
+    eval matchStr atom (.binary .AND l r) = evalLogic false (eval matchStr atom l) (eval matchStr atom r) := by
+  simp [eval]
+
+theorem eval_or (l r : Expr) :
+    eval matchStr atom (.binary .OR l r) = evalLogic true (eval matchStr atom l) (eval matchStr atom r) := by
+  simp [eval]
+
+theorem eval_paren (e : Expr) : eval matchStr atom (.paren e) = eval matchStr atom e := by
+  simp [eval]
+
+theorem eval_eq_lit (l : Expr) (lit : Str) :
+    eval matchStr atom (.binary .EQ l (.string lit)) = .bool (strCmpB false (eval matchStr atom l) lit) := by
+  simp [eval, evalStrCmp_eq]
+
+theorem eval_neq_lit (l : Expr) (lit : Str) :
+    eval matchStr atom (.binary .NEQ l (.string lit)) = .bool (strCmpB true (eval matchStr atom l) lit) := by
+  simp [eval, evalStrCmp_eq]
+
+theorem eval_eqregex (l : Expr) (src : Str) :
+    eval matchStr atom (.binary .EQREGEX l (.regex src)) = evalRegexCmp matchStr false (eval matchStr atom l) src := by
+  simp [eval]
+
+theorem eval_neqregex (l : Expr) (src : Str) :
+    eval matchStr atom (.binary .NEQREGEX l (.regex src)) = evalRegexCmp matchStr true (eval matchStr atom l) src := by
+  simp [eval]
+
+theorem eval_stripParen (e : Expr) : eval matchStr atom (stripParen e) = eval matchStr atom e := by
+  cases e <;> simp [stripParen, eval_paren]
+
+theorem eval_chain_or (lhs : Expr) (vs : List Str) (acc : Expr) (b : Bool)
+    (h : eval matchStr atom acc = .bool b) :
+    eval matchStr atom (chain .EQ .OR lhs acc vs) =
+      .bool (b || vs.any (strCmpB false (eval matchStr atom lhs))) := by
+  induction vs generalizing acc b with
+  | nil => simp [chain, h]
+  | cons v vs ih =>
+    rw [chain, ih _ (b || strCmpB false (eval matchStr atom lhs) v)]
+    · simp [Bool.or_assoc]
+    · rw [eval_or, h, eval_eq_lit]; simp [evalLogic]
+
+theorem eval_chain_and (lhs : Expr) (vs : List Str) (acc : Expr) (b : Bool)
+    (h : eval matchStr atom acc = .bool b) :
+    eval matchStr atom (chain .NEQ .AND lhs acc vs) =
+      .bool (b && vs.all (strCmpB true (eval matchStr atom lhs))) := by
+  induction vs generalizing acc b with
+  | nil => simp [chain, h]
+  | cons v vs ih =>
+    rw [chain, ih _ (b && strCmpB true (eval matchStr atom lhs) v)]
+    · simp [Bool.and_assoc]
+    · rw [eval_and, h, eval_neq_lit]; simp [evalLogic]
+
+/-- The OR chain is true iff the value equals one of the substituted literals. -/
+theorem eval_tests_or (lhs : Expr) (vals : List Str) :
+    eval matchStr atom (literalTests .EQ .OR lhs vals) =
+      .bool ((rewriteLits vals).any (strCmpB false (eval matchStr atom lhs))) := by
+  match vals with
+  | [] => simp [literalTests, rewriteLits, eval_eq_lit]
+  | [v] => simp [literalTests, rewriteLits, eval_eq_lit]
+  | v :: w :: vs =>
+    have e : literalTests .EQ .OR lhs (v :: w :: vs) =
+        .paren (chain .EQ .OR lhs (.binary .EQ lhs (.string v)) (w :: vs)) := rfl
+    rw [e, eval_paren, eval_chain_or matchStr atom lhs (w :: vs) _ _ (eval_eq_lit matchStr atom lhs v)]
+    simp [rewriteLits]
+
+/-- The AND chain is true iff the value differs from all the substituted literals. -/
+theorem eval_tests_and (lhs : Expr) (vals : List Str) :
+    eval matchStr atom (literalTests .NEQ .AND lhs vals) =
+      .bool ((rewriteLits vals).all (strCmpB true (eval matchStr atom lhs))) := by
+  match vals with
+  | [] => simp [literalTests, rewriteLits, eval_neq_lit]
+  | [v] => simp [literalTests, rewriteLits, eval_neq_lit]
+  | v :: w :: vs =>
+    have e : literalTests .NEQ .AND lhs (v :: w :: vs) =
+        .paren (chain .NEQ .AND lhs (.binary .NEQ lhs (.string v)) (w :: vs)) := rfl
+    rw [e, eval_paren, eval_chain_and matchStr atom lhs (w :: vs) _ _ (eval_neq_lit matchStr atom lhs v)]
+    simp [rewriteLits]
+
+/-- `exact` (what `matchExactRegex` answers) is sound for `matchStr` (what `MatchString`
+decides): the literals substituted are, byte for byte, the accepted strings. -/
+def ExactSound (exact : Str → Option (List Str)) : Prop :=
+  ∀ src L, exact src = some L → ∀ x : GoStr, matchStr src x = true ↔ x ∈ (rewriteLits L).map ofStr
+
+theorem any_strCmp_str (x : GoStr) (lits : List Str) :
+    lits.any (strCmpB false (.str x)) = true ↔ x ∈ lits.map ofStr := by
+  simp only [List.any_eq_true, strCmpB, Bool.false_eq_true, if_false, decide_eq_true_eq, List.mem_map]
+  constructor
+  · rintro ⟨l, hl, rfl⟩; exact ⟨l, hl, rfl⟩
+  · rintro ⟨l, hl, rfl⟩; exact ⟨l, hl, rfl⟩
+
+theorem all_strCmp_str (x : GoStr) (lits : List Str) :
+    lits.all (strCmpB true (.str x)) = !(lits.any (strCmpB false (.str x))) := by
+  induction lits with
+  | nil => rfl
+  | cons l ls ih => simp only [List.all_cons, List.any_cons, ih, strCmpB, if_true, Bool.false_eq_true, if_false,
+      Bool.not_or]; simp
+
+theorem rewriteNode_regex (exact : Str → Option (List Str)) (op : Token) (lhs : Expr) (src : Str) :
+    rewriteNode exact (.binary op lhs (.regex src)) =
+      if op = .EQREGEX then
+        match exact src with
+        | none => .binary op lhs (.regex src)
+        | some vals => literalTests .EQ .OR lhs vals
+      else if op = .NEQREGEX then
+        match exact src with
+        | none => .binary op lhs (.regex src)
+        | some vals => literalTests .NEQ .AND lhs vals
+      else .binary op lhs (.regex src) := rfl
+
+theorem rewriteLits_ne_nil (vals : List Str) : rewriteLits vals ≠ [] := by
+  cases vals <;> simp [rewriteLits]
+
+/-- One regex test and what replaces it evaluate to `≈` values, whatever the left operand is. -/
+theorem rewriteNode_rel {exact : Str → Option (List Str)} (hs : ExactSound matchStr exact)
+    (op : Token) (lhs : Expr) (src : Str) :
+    Rel (eval matchStr atom (.binary op lhs (.regex src)))
+      (eval matchStr atom (rewriteNode exact (.binary op lhs (.regex src)))) := by
+  rw [rewriteNode_regex]
+  by_cases h1 : op = .EQREGEX
+  · subst h1
+    simp only [if_true]
+    cases he : exact src with
+    | none => exact Rel.refl _
+    | some vals =>
+      simp only
+      rw [eval_tests_or, eval_eqregex]
+      cases hv : eval matchStr atom lhs with
+      | str x =>
+        left
+        simp only [evalRegexCmp, Bool.false_eq_true, if_false, Val.bool.injEq]
+        rw [Bool.eq_iff_iff, any_strCmp_str]
+        exact hs src vals he x
+      | nil => right; exact ⟨rfl, by simp [strCmpB]⟩
+      | bool b => right; exact ⟨rfl, by simp [strCmpB]⟩
+      | other => right; exact ⟨rfl, by simp [strCmpB]⟩
+  · rw [if_neg h1]
+    by_cases h2 : op = .NEQREGEX
+    · subst h2
+      simp only [if_true]
+      cases he : exact src with
+      | none => exact Rel.refl _
+      | some vals =>
+        simp only
+        rw [eval_tests_and, eval_neqregex]
+        cases hv : eval matchStr atom lhs with
+        | str x =>
+          left
+          simp only [evalRegexCmp, if_true, Val.bool.injEq]
+          rw [all_strCmp_str]
+          congr 1
+          rw [Bool.eq_iff_iff, any_strCmp_str]
+          exact hs src vals he x
+        | nil => right; refine ⟨rfl, ?_⟩; obtain ⟨l, ls, e⟩ := List.exists_cons_of_ne_nil (rewriteLits_ne_nil vals); rw [e]; simp [strCmpB]
+        | bool b => right; refine ⟨rfl, ?_⟩; obtain ⟨l, ls, e⟩ := List.exists_cons_of_ne_nil (rewriteLits_ne_nil vals); rw [e]; simp [strCmpB]
+        | other => right; refine ⟨rfl, ?_⟩; obtain ⟨l, ls, e⟩ := List.exists_cons_of_ne_nil (rewriteLits_ne_nil vals); rw [e]; simp [strCmpB]
+    · rw [if_neg h2]; exact Rel.refl _
+
+end
+
 end InfluxQL.Rx
